@@ -3,6 +3,7 @@
 -/
 import Driver.Wire
 import ErgoModel.Json
+import ErgoModel.Path
 open Lean Ergo Ergo.Wire Ergo.Storage
 
 def handle (j : Json) : Json :=
@@ -44,6 +45,45 @@ def handle (j : Json) : Json :=
         ("claimed", match r.out.claimed with | some t => Json.str t.id | none => Json.null),
         ("pruned", Json.arr (r.out.pruned.map Json.str).toArray),
         ("post", post)]
+  | "path" =>
+    let cpsOf (k : String) : List Char := (arr j k).filterMap fun x => match x with
+      | .num n => some (Char.ofNat n.mantissa.toNat) | _ => none
+    let sOut (l : List Char) : Json := Json.str (String.ofList l)
+    let tree := j.getObjValD "tree"
+    let kindAt0 (abs : List Char) : Ergo.Path.Kind :=
+      match tree.getObjVal? (String.ofList abs) with
+      | .ok (.str "dir") => .dir | .ok (.str "file") => .file | .ok (.str "other") => .other | _ => .missing
+    -- ENOTDIR: some proper prefix of the path names something that is not a directory
+    let rec blockedAt (q : List Char) (fuel : Nat) : Bool :=
+      match fuel with
+      | 0 => false
+      | fuel + 1 =>
+        let d := Ergo.Path.dir q
+        if d == q then false
+        else match kindAt0 d with
+          | .file | .other => true
+          | _ => blockedAt d fuel
+    let kindAt (abs : List Char) : Ergo.Path.Kind :=
+      match kindAt0 abs with
+      | .missing => if blockedAt abs 64 then .blocked else .missing
+      | k => k
+    let cwd := cpsOf "cwd"
+    -- the OS resolves a relative path against the working directory (no symlinks inside the walk's tree)
+    let fs (p : List Char) : Ergo.Path.Kind :=
+      if p.isEmpty then .missing else
+      kindAt (if Ergo.Path.isAbs p then Ergo.Path.clean p else Ergo.Path.clean (cwd ++ '/' :: p))
+    let p := cpsOf "p"; let repo := cpsOf "repo"
+    let perr : Ergo.Path.PathErr → String
+      | .absolute => "absolute" | .outside => "outside" | .inErgo => "in_ergo" | .missing => "missing" | .notFile => "not_file" | .access => "access"
+    Json.mkObj [("clean", sOut (Ergo.Path.clean p)), ("dir", sOut (Ergo.Path.dir p)), ("base", sOut (Ergo.Path.base p)),
+      ("abs", Ergo.Path.isAbs p), ("join", sOut (Ergo.Path.join [repo, p])),
+      ("validate", match Ergo.Path.validateResultPath kindAt repo p with
+        | .ok c => Json.mkObj [("ok", sOut c)] | .error e => Json.mkObj [("err", perr e)]),
+      ("resolve", match Ergo.Path.resolveErgoDir fs cwd (cpsOf "start") with
+        | .ok c => Json.mkObj [("ok", sOut c)]
+        | .error (.notDir _) => Json.mkObj [("err", "not_dir")]
+        | .error .notFound => Json.mkObj [("err", "not_found")]
+        | .error .statErr => Json.mkObj [("err", "stat_err")])]
   | "json" =>
     let cpsOf (k : String) : List Char := (arr j k).filterMap fun x => match x with
       | .num n => some (Char.ofNat n.mantissa.toNat) | _ => none
